@@ -1,6 +1,7 @@
 """Helpers for CLI-level monitors (Python side)."""
 import json
 import os
+import re
 import subprocess
 import tempfile
 from concurrent.futures import ThreadPoolExecutor
@@ -94,7 +95,7 @@ def tagged_to_cmp(t, collapse=True, sort_keys=False):
     if k == "b":
         return bool(t[1])
     if k == "n":
-        return ("n", float(t[1]))
+        return ("n", float(t[1]), t[1])
     if k == "s":
         return t[1]
     if k == "a":
@@ -127,7 +128,7 @@ def _pairs_hook(pairs):
 
 
 def _num(s):
-    return ("n", float(s))
+    return ("n", float(s), s)
 
 
 def _const(s):
@@ -166,18 +167,24 @@ def cmp_has_dup(v):
     return False
 
 
-def cmp_equal(a, b):
-    """Equality of comparable values; numbers as doubles (-0 == 0), key order exact."""
+_INT = re.compile(r"-?\d+$")
+
+
+def cmp_equal(a, b, exact_ints=False):
+    """Equality of comparable values; numbers as doubles (-0 == 0), key order exact.
+    exact_ints: two integer spellings must denote the same integer (no rounding through a double)."""
     if isinstance(a, tuple) and isinstance(b, tuple):
         if a[0] != b[0]:
             return False
         if a[0] == "n":
+            if exact_ints and len(a) > 2 and len(b) > 2 and _INT.match(a[2]) and _INT.match(b[2]):
+                return int(a[2]) == int(b[2])
             return a[1] == b[1]
         if len(a[1]) != len(b[1]):
             return False
-        return all(ka == kb and cmp_equal(va, vb) for (ka, va), (kb, vb) in zip(a[1], b[1]))
+        return all(ka == kb and cmp_equal(va, vb, exact_ints) for (ka, va), (kb, vb) in zip(a[1], b[1]))
     if isinstance(a, list) and isinstance(b, list):
-        return len(a) == len(b) and all(cmp_equal(x, y) for x, y in zip(a, b))
+        return len(a) == len(b) and all(cmp_equal(x, y, exact_ints) for x, y in zip(a, b))
     if isinstance(a, bool) or isinstance(b, bool):
         return isinstance(a, bool) and isinstance(b, bool) and a == b
     if type(a) is not type(b):
